@@ -1,6 +1,6 @@
 // Typed SEI messages reached through a HISTORY: build | decode (direct decoder, DecodeSEIMessage,
 // avc/hevc.ParseSEINalu) -> k steps (edit exported fields to other canonical values; copy the struct
-// and edit the copy; serialise + re-decode) -> Size() / Payload() / WriteSEIMessages -> decode.
+// and edit the copy; call the serialiser, drop the result, edit; serialise + re-decode) -> Size() / Payload() / WriteSEIMessages -> decode.
 // The observables of the final value are compared with the model computed from the FINAL exported
 // field values (correspondence), and the property itself is evaluated on it (search): whatever a
 // message value has been through, Payload()/Size() are a function of its exported fields.
@@ -612,6 +612,14 @@ func runHistory(r *hx.Rng, kind int, canonicalOnly bool) (*hval, string) {
 				break
 			}
 			fallthrough
+		case 4: // use the value (Size/Payload/String/WriteSEIMessages), drop the result, then edit it
+			hx.Try(func() {
+				_ = v.msg().Size()
+				_ = v.msg().Payload()
+				_ = v.msg().String()
+				_ = sei.WriteSEIMessages(&bytes.Buffer{}, []sei.SEIMessage{v.msg()})
+			})
+			log = append(log, "observe", edit(r, v))
 		default:
 			log = append(log, edit(r, v))
 		}
